@@ -132,7 +132,110 @@ func (ps *parser) isOp(s string) bool {
 }
 func (ps *parser) isKw(s string) bool {
 	t := ps.cur()
-	return t.kind == tKeyword && t.text == s
+	if t.kind == tKeyword {
+		return t.text == s
+	}
+	if t.kind == tIdent && t.text == s && svSoft[s] {
+		return ps.svWordHere() == s
+	}
+	return false
+}
+
+// SystemVerilog words are ordinary identifiers in Verilog-2001. They are
+// recognised as "soft keywords" only where the following tokens have the shape
+// of the SystemVerilog construct, so that legal Verilog-2001 code using e.g.
+// "bit" or "logic" as a name keeps parsing.
+var svTypeWords = map[string]bool{"logic": true, "bit": true, "int": true, "byte": true, "shortint": true, "longint": true}
+
+var svSoft = map[string]bool{"logic": true, "bit": true, "int": true, "byte": true, "shortint": true, "longint": true,
+	"always_comb": true, "always_ff": true, "always_latch": true, "typedef": true, "import": true,
+	"unique": true, "priority": true}
+
+// svDistinct are identifiers that practically only occur in SystemVerilog
+// sources; a module that fails to parse and contains one of them is reported
+// as unsupported instead of as a syntax defect.
+var svDistinct = map[string]bool{"always_comb": true, "always_ff": true, "always_latch": true, "logic": true,
+	"typedef": true, "enum": true, "struct": true, "modport": true, "endinterface": true, "endpackage": true,
+	"assert": true, "property": true, "endproperty": true, "unique": true, "priority": true, "endclass": true}
+
+// svWordHere returns the SystemVerilog soft keyword at the current position ("" if none).
+func (ps *parser) svWordHere() string {
+	t := ps.cur()
+	if t.kind != tIdent || !svSoft[t.text] {
+		return ""
+	}
+	nx := ps.peek(1)
+	switch {
+	case svTypeWords[t.text]:
+		// type name followed by [range] name | signed | name followed by ; , = [ )
+		i := 1
+		if nx.kind == tKeyword && (nx.text == "signed" || nx.text == "unsigned") {
+			return t.text
+		}
+		for ps.peek(i).kind == tOp && ps.peek(i).text == "[" {
+			depth := 0
+			for {
+				x := ps.peek(i)
+				if x.kind == tEOF {
+					return ""
+				}
+				if x.kind == tOp && x.text == "[" {
+					depth++
+				} else if x.kind == tOp && x.text == "]" {
+					depth--
+					if depth == 0 {
+						i++
+						break
+					}
+				}
+				i++
+				if i > 200 {
+					return ""
+				}
+			}
+		}
+		if ps.peek(i).kind != tIdent {
+			return ""
+		}
+		if i > 1 {
+			return t.text // had a range: "logic [3:0] x"
+		}
+		f := ps.peek(i + 1)
+		if f.kind == tOp && (f.text == ";" || f.text == "," || f.text == "=" || f.text == "[" || f.text == ")") {
+			return t.text
+		}
+		return ""
+	case t.text == "always_comb" || t.text == "always_ff" || t.text == "always_latch":
+		if nx.kind == tOp && nx.text == "@" || nx.kind == tKeyword && (nx.text == "begin" || nx.text == "if" || nx.text == "case") {
+			return t.text
+		}
+		if nx.kind == tIdent && t.text == "always_comb" {
+			f := ps.peek(2)
+			if f.kind == tOp && (f.text == "=" || f.text == "<=" || f.text == "[") {
+				return t.text
+			}
+		}
+		return ""
+	case t.text == "typedef":
+		if nx.kind == tIdent || nx.kind == tKeyword {
+			f := ps.peek(2)
+			if !(f.kind == tOp && f.text == "(") {
+				return t.text
+			}
+		}
+		return ""
+	case t.text == "import":
+		if nx.kind == tIdent && ps.peek(2).kind == tOp && ps.peek(2).text == ":" {
+			return t.text
+		}
+		return ""
+	case t.text == "unique" || t.text == "priority":
+		if nx.kind == tKeyword && (nx.text == "case" || nx.text == "casez" || nx.text == "casex" || nx.text == "if") {
+			return t.text
+		}
+		return ""
+	}
+	return ""
 }
 func (ps *parser) acceptOp(s string) bool {
 	if ps.isOp(s) {
@@ -204,10 +307,11 @@ func (ps *parser) parseTop(d *Design) {
 			ps.parseModuleSafe(d)
 			continue
 		}
-		if t.kind == tKeyword && (t.text == "primitive" || t.text == "package" || t.text == "interface" || t.text == "config") {
+		if (t.kind == tKeyword && (t.text == "primitive" || t.text == "config")) ||
+			(t.kind == tIdent && (t.text == "package" || t.text == "interface") && ps.peek(1).kind == tIdent) {
 			endkw := "end" + t.text
 			ps.diags = append(ps.diags, Diag{Class: ClassUnsupported, File: ps.file, Line: t.line, Msg: t.text + " definitions are not supported"})
-			for ps.cur().kind != tEOF && !ps.isKw(endkw) {
+			for ps.cur().kind != tEOF && !(ps.cur().text == endkw && (ps.cur().kind == tKeyword || ps.cur().kind == tIdent)) {
 				ps.next()
 			}
 			ps.next()
@@ -219,6 +323,29 @@ func (ps *parser) parseTop(d *Design) {
 		}
 		ps.next()
 	}
+}
+
+// svTokenInModule scans the module starting at token index start for tokens that only occur in SystemVerilog.
+func (ps *parser) svTokenInModule(start int) string {
+	for i := start; i < len(ps.toks); i++ {
+		t := ps.toks[i]
+		if t.kind == tEOF || (t.kind == tKeyword && t.text == "endmodule") {
+			break
+		}
+		if i > start && t.kind == tKeyword && (t.text == "module" || t.text == "macromodule") {
+			break
+		}
+		if t.kind == tIdent && svDistinct[t.text] {
+			return t.text
+		}
+		if t.kind == tKeyword && t.text == "genvar" && i > 0 && ps.toks[i-1].kind == tOp && ps.toks[i-1].text == "(" {
+			return "for (genvar"
+		}
+		if t.kind == tNumber && t.num != nil && t.num.Unbased {
+			return t.num.Text
+		}
+	}
+	return ""
 }
 
 func (ps *parser) parseModuleSafe(d *Design) {
@@ -235,7 +362,12 @@ func (ps *parser) parseModuleSafe(d *Design) {
 				if ps.mod != nil {
 					name = ps.mod.Name
 				}
-				ps.diags = append(ps.diags, Diag{Class: ClassSyntax, File: ps.file, Line: pe.line, Module: name, Msg: pe.msg})
+				class, msg := ClassSyntax, pe.msg
+				if w := ps.svTokenInModule(start); w != "" {
+					class = ClassUnsupported
+					msg = "SystemVerilog source ('" + w + "'): " + msg
+				}
+				ps.diags = append(ps.diags, Diag{Class: class, File: ps.file, Line: pe.line, Module: name, Msg: msg})
 				ok = false
 			}
 		}()
@@ -492,8 +624,11 @@ func (ps *parser) parseItem(items *[]Item, inGen bool) {
 		return
 	}
 	if t.kind == tIdent {
-		ps.parseInstances(items)
-		return
+		if ps.svWordHere() == "" {
+			ps.parseInstances(items)
+			return
+		}
+		t.kind = tKeyword // soft keyword: handled by the switch below
 	}
 	if t.kind == tSysIdent {
 		// elaboration system task ($error, $info...) : unsupported
@@ -1174,7 +1309,7 @@ func (ps *parser) parseStmt() Stmt {
 			// declarations
 			for {
 				dt := ps.cur()
-				if dt.kind != tKeyword {
+				if dt.kind != tKeyword && ps.svWordHere() == "" {
 					break
 				}
 				if dt.text == "reg" || dt.text == "integer" || dt.text == "time" || dt.text == "real" || dt.text == "realtime" || dt.text == "logic" || dt.text == "int" {
@@ -1237,10 +1372,6 @@ func (ps *parser) parseStmt() Stmt {
 				s.Else = ps.parseStmtOrNull()
 			}
 			return s
-		case "unique", "priority":
-			ps.unsupported(t.line, "SystemVerilog '"+t.text+"'")
-			ps.next()
-			return ps.parseStmt()
 		case "case", "casez", "casex":
 			ps.next()
 			cs := &CaseStmt{stmtBase: stmtBase{t.line}, Kind: t.text}
@@ -1326,9 +1457,6 @@ func (ps *parser) parseStmt() Stmt {
 		case "assign", "deassign", "force", "release":
 			ps.skipToSemi()
 			return &UnsupportedStmt{stmtBase{t.line}, "procedural " + t.text}
-		case "return", "break", "continue":
-			ps.skipToSemi()
-			return &UnsupportedStmt{stmtBase{t.line}, "SystemVerilog " + t.text}
 		}
 		ps.fail("unexpected keyword %q in statement", t.text)
 	case tSysIdent:
@@ -1373,8 +1501,18 @@ func (ps *parser) parseStmt() Stmt {
 		}
 		ps.fail("unexpected %s in statement", ps.describe())
 	case tIdent:
+		if w := ps.svWordHere(); w == "unique" || w == "priority" {
+			ps.unsupported(t.line, "SystemVerilog '"+w+"'")
+			ps.next()
+			return ps.parseStmt()
+		}
 		// task call or assignment
 		nx := ps.peek(1)
+		if nx.kind == tOp && nx.text == ";" && (t.text == "return" || t.text == "break" || t.text == "continue") {
+			ps.next()
+			ps.next()
+			return &UnsupportedStmt{stmtBase{t.line}, "SystemVerilog " + t.text}
+		}
 		if nx.kind == tOp && (nx.text == ";" || nx.text == "(") {
 			ps.next()
 			tc := &TaskCallStmt{stmtBase: stmtBase{t.line}, Name: t.text}
